@@ -11,7 +11,7 @@ fail=0
 for d in /verif/seeded/${1}*/; do
   name=$(basename $d)
   prop=$(python3 -c "import json;print(json.load(open('$d/meta.json'))['property'])")
-  want=$(python3 -c "import json;print(json.load(open('$d/meta.json'))['check_result'][:6])")
+  want=$(python3 -c "import json;r=json.load(open('$d/meta.json'))['check_result'];print('MISSED' if r.startswith('MISSED') else 'CAUGHT')")
   rm -rf $S && mkdir -p $S && rsync -a --exclude .git /repo/ $S/
   if ! (cd $S && patch -s -p1 < $d/patch.diff); then echo "$name: patch does not apply" | tee -a $out; fail=1; continue; fi
   res=$(GOVC_REPO=$S /verif/bin/govc check -property $prop 2>&1 | grep -E "^VIOLATION" | head -1)
